@@ -11,6 +11,7 @@ import Model.C04.Domain
 import Model.C04.Verdict
 import Model.C04.Verdict2
 import Model.C04.Derived
+import Model.C04.Refusal
 import Model.C04.Switch
 import Generated.Backend
 import Generated.BackendSites
@@ -24,6 +25,10 @@ line protocol of property C04 (harness/c04.py)
   guard <site> <bits>                           generated guard / established / catches of one delegation site on an
                                                 atom vector (`0`/`1` per field of `Gen.Backend.Atoms`, in order)
   verdict <api> <py|bind> <class tokens…>       T2 verdict tables
+  refusal <i> <py|bind>                         row i of `refusalTable`: the Python arm's class / the class the GENERATED
+                                                handlers give the bindings arm when the C call refuses
+  refusals                                      the rows: `<i>|<site>|<atom>|<class key>` joined by `;`
+  inventory                                     generated `consulting` list: `<function>=<status>` …
   dual.<api> …                                  the backend-free model M of the curve-level dual-path APIs (shared EC model)
 -/
 
@@ -291,6 +296,10 @@ def handle (toks : List String) : String :=
   | "gen" :: "Backend" :: fn :: args => (Gen.Backend.dispatch fn args).getD "bad-op"
   | "guard" :: rest => (guardOp rest).getD "bad-op"
   | "verdict" :: rest => (verdictOp rest).getD "bad-op"
+  | "refusal" :: rest => (refusalOp rest).getD "bad-op"
+  | "refusals" :: _ => "ok " ++ ";".intercalate ((List.range refusalTable.length).zip refusalTable |>.map fun (i, e) =>
+      s!"{i}|{e.site.name}|{e.atom}|{e.cls}")
+  | "inventory" :: _ => "ok " ++ " ".intercalate (Gen.BackendSites.consulting.map fun f => s!"{f.1}={f.2}")
   | "sites" :: _ => "ok " ++ " ".intercalate (Gen.BackendSites.SiteId.all.map fun s =>
       s!"{s.name}={(domainFrom s).replace " " "_"}")
   | _ =>
